@@ -916,6 +916,7 @@ fn udp_bare_case(c: &mut Ctx, fam: &str, idx: u64) {
 }
 
 pub fn run(c: &mut Ctx) {
+    c.families(3);
     let fam = "udp-bare";
     let total = c.total(4_000, 100_000);
     for idx in c.cases(fam, total) {
